@@ -29,7 +29,9 @@ class Bundle(CborArray):
             if isinstance(blk.payload, AdminRecord):
                 self.primary.setfieldval('bundle_flags', self.primary.getfieldval('bundle_flags') | PrimaryBlock.Flag.PAYLOAD_ADMIN)
                 blk.setfieldval('type_code', Bundle.BLOCK_TYPE_PAYLOAD)
-                blk.setfieldval('btsd', bytes(blk.payload))
+                if blk.fields.get('btsd') is None:
+                    # keep received data as-is, encode only locally built records
+                    blk.setfieldval('btsd', bytes(blk.payload))
 
     def self_build(self, field_pos_list=None):
         # Special handling for admin payload
